@@ -802,6 +802,15 @@ class Interp:
         if kind(b) == 'dict':
             pairs = [(a, x) for a, x in b[1] if a != i] + [(i, v)]
             self._store_slot(recv_node, ('dict', tuple(pairs)), st)
+        elif kind(b) == 'list' and is_const(i) and \
+                isinstance(i[1], int) and not isinstance(i[1], bool) and \
+                0 <= i[1] < len(b[1]) and \
+                all(kind(x) == 'item' for x in b[1][:i[1] + 1]):
+            # lst[k] = v where the first k+1 elements of the tracked list
+            # are individually known (a slot reserved up front)
+            items = list(b[1])
+            items[i[1]] = ('item', v)
+            self._store_slot(recv_node, ('list', tuple(items)), st)
 
     def _slot_exists(self, recv_node, st):
         if isinstance(recv_node, ast.Name):
